@@ -400,8 +400,17 @@ def bounded(tier, seed):
                 return rng.choice(consts), True
             # ---- Problem(initial_defaults=...)
             tdefaults = {}
-            for t in rng.sample(types, rng.randint(0, 3)):
-                tdefaults[t] = pick_value()[0]
+
+            def compatible_const(t):
+                if t.is_bool_type():
+                    return rng.choice([True, False])
+                if t.is_int_type() or t.is_real_type():
+                    lo = t.lower_bound if t.lower_bound is not None else (t.upper_bound - 3 if t.upper_bound is not None else 0)
+                    return lo if t.is_int_type() else Fraction(lo)
+                return rng.choice([o for o in objs if t.is_compatible(o.type)])
+            for t in rng.sample(types, rng.randint(0, 4)):
+                # mostly a value the type accepts (so that the default is stored and later inherited), sometimes any value
+                tdefaults[t] = compatible_const(t) if rng.random() < 0.7 else pick_value()[0]
             em = up.environment.get_environment().expression_manager
             exp_ok = True
             for t, v in tdefaults.items():
@@ -457,6 +466,20 @@ def bounded(tier, seed):
                     bad("rejected add_fluent changed the model", {"fluent_type": repr(t), "default": repr(v)})
                 accepted += ok
                 rejected += not ok
+            # ---- fluents without an explicit default: the stored default must be a compatible constant (per-type default of
+            #      exactly that type or nothing)
+            for k_, t in enumerate(types):
+                f = Fluent(f"nd{k_}", t)
+                evals += 1
+                try:
+                    pr.add_fluent(f)
+                except Exception as ex:  # noqa
+                    bad("add_fluent without default rejected", {"fluent_type": repr(t), "error": repr(ex)})
+                    continue
+                dv = pr.fluents_defaults.get(f)
+                if dv is not None and not (dv.is_constant() and t.is_compatible(dv.type)):
+                    bad("add_fluent stored an inherited default that is not compatible with the fluent's type",
+                        {"fluent_type": repr(t), "stored_default": repr(dv), "initial_defaults": {repr(k2): repr(v2) for k2, v2 in pr.initial_defaults.items()}})
             # ---- set_initial_value
             for k in range(rng.randint(2, 6)):
                 f = rng.choice(pr.fluents)
